@@ -3,6 +3,7 @@ import builtins
 import ast
 import sys
 import inspect
+import importlib.util
 from collections import OrderedDict
 import logging
 from enum import Enum
@@ -280,6 +281,83 @@ def _arg_names(args: ast.arguments) -> List[str]:
 
 
 _COMPREHENSIONS = (ast.ListComp, ast.SetComp, ast.DictComp, ast.GeneratorExp)
+
+
+def _import_from_base(node: ast.ImportFrom, mod: ModuleType) -> Optional[str]:
+    """
+    The full name of the module that a 'from ... import' statement of the given module imports from.
+    """
+    base = node.module or ""
+    if node.level:
+        try:
+            base = importlib.util.resolve_name(
+                "." * node.level + base, getattr(mod, "__package__", None)
+            )
+        except (ImportError, ValueError, TypeError):
+            return None
+    return base or None
+
+
+class _BodyImportsResolver(ast.NodeTransformer):
+    """
+    A name bound by an import statement in the body of a function (from pkg import conf,
+    from pkg.conf import fun, import pkg.conf as conf) is not a name of the module of the function. It is
+    replaced by the full path of what it denotes (pkg.conf, pkg.conf.fun), which is looked up from the root
+    like the modules that are imported by their own name (import pkg.conf).
+
+    Only the imports from the accepted packages are resolved: the other ones do not take part in the analysis.
+    """
+
+    def __init__(self, mod: ModuleType, gctx: EvalMainContext):
+        self._mod = mod
+        self._gctx = gctx
+        self._aliases: Dict[str, List[str]] = {}
+
+    def _register(self, name: str, parts: List[str]) -> None:
+        if self._gctx.is_authorized_path(CanonicalPathUtils.from_list(parts)):
+            self._aliases[name] = parts
+        else:
+            self._aliases.pop(name, None)
+
+    def visit_Import(self, node: ast.Import) -> Any:
+        for alias in node.names:
+            if alias.asname is not None:
+                self._register(alias.asname, alias.name.split("."))
+        return node
+
+    def visit_ImportFrom(self, node: ast.ImportFrom) -> Any:
+        base = _import_from_base(node, self._mod)
+        for alias in node.names:
+            if base and alias.name != "*":
+                self._register(
+                    alias.asname or alias.name, base.split(".") + [alias.name]
+                )
+        return node
+
+    def visit_Name(self, node: ast.Name) -> Any:
+        parts = self._aliases.get(node.id)
+        if parts is None or not isinstance(node.ctx, ast.Load):
+            return node
+        res: ast.expr = ast.copy_location(ast.Name(id=parts[0], ctx=ast.Load()), node)
+        for p in parts[1:]:
+            res = ast.copy_location(
+                ast.Attribute(value=res, attr=p, ctx=ast.Load()), node
+            )
+        return res
+
+
+def _resolve_body_imports(
+    node: Union[ast.FunctionDef, ast.Lambda], mod: ModuleType, gctx: EvalMainContext
+) -> None:
+    """
+    Replaces (in place, once) the names that the body of the function binds with import statements.
+    """
+    if isinstance(node, ast.FunctionDef) and not getattr(
+        node, "_dds_imports_resolved", False
+    ):
+        resolver = _BodyImportsResolver(mod, gctx)
+        node.body = [resolver.visit(n) for n in node.body]
+        setattr(node, "_dds_imports_resolved", True)
 
 
 class _BoundNamesVisitor(ast.NodeVisitor):
@@ -621,6 +699,15 @@ class ExternalVarsVisitor(_ScopedVisitor):
                 self._imported_modules[parts[0]] = parts[:1]
             else:
                 self._imported_modules[alias.asname] = parts
+                # (the names bound to accepted modules are replaced by their full path, see _BodyImportsResolver)
+                self._imported_modules.setdefault(parts[0], parts[:1])
+
+    def visit_ImportFrom(self, node: ast.ImportFrom) -> Any:
+        # from pkg.conf import VAR -> VAR has been replaced by pkg.conf.VAR if pkg is accepted
+        base = _import_from_base(node, self._start_mod)
+        if base is not None:
+            root = base.split(".")[0]
+            self._imported_modules.setdefault(root, [root])
 
     def visit_Name(self, node: ast.Name, debug: bool = False) -> Any:
         local_dep_path = LocalDepPath(PurePosixPath(node.id))
@@ -946,6 +1033,7 @@ class InspectFunction(object):
         debug: bool = False,
     ) -> FunctionInteractions:
         body: Sequence[ast.AST]
+        _resolve_body_imports(node, mod, gctx)
         if isinstance(node, ast.FunctionDef):
             body = node.body
         elif isinstance(node, ast.Lambda):
